@@ -15,6 +15,8 @@ class FakeDevice:
         self.total = 0
         self.mode = "ok"
         self.writers = []
+        self.flood = False      # the device sends more than the client ever reads (status chatter)
+        self.resets = 0         # times the device's read ended in a connection reset instead of end-of-stream
 
     async def handle(self, reader, writer):
         self.open += 1
@@ -22,13 +24,17 @@ class FakeDevice:
         self.writers.append(writer)
         try:
             while True:
-                data = await reader.read(1024)
+                try:
+                    data = await reader.read(1024)
+                except ConnectionResetError:
+                    self.resets += 1
+                    break
                 if not data:
                     self.eof += 1
                     break
                 if self.mode == "ok":
                     try:
-                        writer.write(bytes(44))
+                        writer.write(bytes(44) + (bytes(3072) if self.flood else b""))
                         await writer.drain()
                     except (RuntimeError, OSError):      # this side was half-closed / reset by an earlier faulty step
                         break
@@ -55,8 +61,9 @@ def free_port():
     return p
 
 
-async def run_history(kind, seq):
+async def run_history(kind, seq, flood=False):
     dev = FakeDevice()
+    dev.flood = flood
     server = await asyncio.start_server(dev.handle, "127.0.0.1", 0)
     port = server.sockets[0].getsockname()[1]
     dead = free_port()
@@ -133,6 +140,9 @@ async def run_history(kind, seq):
             w = getattr(api, "_writer", None)
             if not model and w is not None and not w.transport.is_closing():
                 problems.append(f"step {n} {a}: the client's socket is still open after disconnect")
+            if not model and dev.resets:
+                problems.append(f"step {n} {a}: the device saw a connection reset instead of end-of-stream")
+                dev.resets = 0
             if not model and dev.open != 0:
                 await asyncio.sleep(0.1)
                 if dev.open != 0:
@@ -186,8 +196,26 @@ def run_case(c):
         for n in range(i["n"]):
             seq = fixed[n] if n < len(fixed) else [rnd.choice(ALPHABET) for _ in range(rnd.randrange(1, 8))]
             kind = 1 + n % 2
-            p = asyncio.run(run_history(kind, seq))
+            # every third history with the library's loggers at DEBUG (code that only runs when debugging must not change the outcome)
+            import logging
+            lg = logging.getLogger("aioswitcher")
+            old_level, old_handlers = lg.level, list(lg.handlers)
+            if n % 3 == 1:
+                lg.setLevel(logging.DEBUG)
+                lg.addHandler(logging.NullHandler())
+            try:
+                p = asyncio.run(run_history(kind, seq))
+            finally:
+                lg.setLevel(old_level)
+                lg.handlers[:] = old_handlers
+            if p and n % 3 == 1:
+                p = ["with the aioswitcher logger at DEBUG"] + p
             if p:
                 return {"ok": False, "evaluations": n + 1, "detail": p, "case": {"prop": "C18", "kind": "history", "inputs": {"api": kind, "seq": seq}}}
-        return {"ok": True, "evaluations": i["n"]}
+        # a talkative device: it sends 3 KiB more than the client reads with every answer; leaving must still look like end-of-stream to it
+        for kind in (1, 2):
+            p = asyncio.run(run_history(kind, ["connect_ok", "op_ok", "op_ok", "op_ok", "disconnect", "enter", "op_ok", "op_ok", "leave"], flood=True))
+            if p:
+                return {"ok": False, "evaluations": i["n"] + kind, "detail": ["device sends 3 KiB of unread data with every answer"] + p}
+        return {"ok": True, "evaluations": i["n"] + 2}
     raise ValueError(k)
